@@ -36,7 +36,7 @@ func (c07) Describe() engine.Info {
 	return engine.Info{
 		Rule: "scenario = cartridge (ROM-only / MBC1 / MBC3 / MBC5) + warm-up of 0..300 random I/O and cartridge-control pokes spread over up to two frames (machine state randomised) + 40 judged writes: class io walks FF00-FFFF (index selects the 40-address window) with random/edge values, class any picks addresses from all regions incl. region boundaries; between judged writes 0..3 cycles elapse. " +
 			"Oracle: before/after diff of all 65,536 readable locations around the single write; the set of changed locations must be a subset of the documented effect set of the address (own location and echo; ROM/RAM windows for cartridge control; DIV/TAC: FF04-FF05; LCDC: FF40, FF41, FF44; FF46: FF46 and FE00-FEFF; NR52: FF10-FF3F; NRx0/NRx2/NRx4: own, NR52, wave RAM window for channel 3; wave RAM: FF30-FF3F; LYC: FF45, FF41; TMA: FF06, FF05). Signature = (written register or region, LCD on, sound on, DMA running, changed-set class)." +
-			" Warm-ups also press and release keys. Class any on MBC1/MBC5 also performs a control write and a RAM-window store at one boundary with no observation in between (judged as the union; the cartridge windows afterwards must be those of the reference cartridge). A write to a channel's registers may change only that channel's status bit in NR52.",
+			" Warm-ups also press and release keys. Class any on MBC1/MBC5 also performs a control write and a RAM-window store at one boundary with no observation in between (judged as the union; the cartridge windows afterwards must be those of the reference cartridge). A write to a channel's registers may change only that channel's status bit in NR52. After every cartridge write the two ROM windows and the RAM window must equal the reference cartridge (MBC1/MBC3/MBC5; MBC3 select/store/select sequences incl. the unmapped selects 0D-0F).",
 		Assumptions:    []string{"reads used for the observation are free of side effects (OAM is peeked)", "no machine cycle elapses between the two observations, so only the write can cause a difference"},
 		RequiredProbes: []string{"sound_warmup_all_channels_on", "diffs", "write_with_lcd_on", "write_with_dma_running", "write_with_sound_on", "write_changed_other_location_legally", "key_event_in_warm_up", "control_write_and_store_unobserved_in_between"},
 		RealComponents: realComponents, StubComponents: stubComponents,
